@@ -78,9 +78,11 @@ Proof. exact (conj x_grid_via_mask_spec (conj x_over_sampled_spec (conj extent_s
 
 (* derive_mask.{all_false, edge, border, blurring_from, edge_buffed}, Mask2D.resized_from / rescaled_from: any function [f] of
    the boolean array; the derived mask carries the parent's pixel scales and origin *)
-Theorem C12_derived_masks_keep_the_frame : forall (f : mask -> mask) (d : @pt ROps) (M : @mask2d ROps),
-  derive_mask f (translate d M) = translate d (derive_mask f M).
-Proof. exact derive_mask_commutes. Qed.
+Theorem C12_derived_masks_keep_the_frame :
+  (forall (f : mask -> mask) (d : @pt ROps) (M : @mask2d ROps), derive_mask f (translate d M) = translate d (derive_mask f M)) /\
+  (forall (d : @pt ROps) (M : @mask2d ROps) kh kw, padded_mask (translate d M) kh kw = translate d (padded_mask M kh kw)) /\
+  (forall (d : @pt ROps) (M : @mask2d ROps) ih iw, trimmed_array_mask (translate d M) ih iw = translate d (trimmed_array_mask M ih iw)).
+Proof. exact (conj derive_mask_commutes (conj padded_mask_translates trimmed_array_mask_translates)). Qed.
 
 (* call sites: Grid2D.from_mask, derive_grid.all_false, derive_grid.edge/border ([sel] = any index list computed from the boolean
    array), blurring_grid_from ([bl] = any function of the boolean array), padded_grid_from, over_sampled_grid / sub_grid *)
